@@ -639,3 +639,118 @@ def gen_history(rng, cid, length=None):
     case = {"id": cid, "kind": "history", "graph": base["graph"], "store_struct": store,
             "store": render_store(store), "steps": steps}
     return case
+
+
+# ---------------------------------------------------------------------------
+# import cases (C07/C08/C06): richer peers, criteria-maps, exclude, multi-URL, junk
+
+JUNK_AUDITS = [
+    'criteria = "safe-to-deploy"\nversion = "1.0.0"\nfuture-field = true\n',          # unknown field
+    'criteria = "safe-to-deploy"\nversion = 7\n',                                       # wrong type
+    'criteria = "no-such-criteria"\nversion = "1.0.0"\n',                               # unknown criteria only
+    'criteria = "safe-to-deploy"\nversion = "1.0.0"\ndelta = "1.0.0 -> 2.0.0"\n',       # two kinds
+    'criteria = "safe-to-deploy"\ndelta = "2.0.0"\n',                                   # delta without from
+    'who = 12\ncriteria = "safe-to-run"\nversion = "1.0.0"\n',
+]
+JUNK_WILD = [
+    'criteria = "safe-to-deploy"\nuser-id = "one"\nstart = "2022-01-01"\nend = "2023-01-01"\n',
+    'criteria = "safe-to-deploy"\nuser-id = 1\nstart = "2022-01-01"\n',
+    'criteria = "mystery"\nuser-id = 1\nstart = "2022-01-01"\nend = "2023-01-01"\n',
+]
+
+
+def add_junk(rng, text, names):
+    """append malformed / future-format entries to a rendered peer file"""
+    out = text
+    for _ in range(rng.randint(1, 4)):
+        n = rng.choice(names)
+        if rng.random() < 0.7:
+            out += f"\n[[audits.{n}]]\n" + rng.choice(JUNK_AUDITS)
+        else:
+            out += f"\n[[wildcard-audits.{n}]]\n" + rng.choice(JUNK_WILD)
+    if rng.random() < 0.3:
+        out += '\n[criteria.weird]\ndescription = "x"\nimplies = 5\n'
+    return out
+
+
+def gen_import_case(rng, cid):
+    pkgs = gen_graph(rng)
+    store = gen_store(rng, pkgs, p_violation=0.1, with_imports=False)
+    notes = Notes()
+    notes.n = 7000
+    crits = _crits(store)
+    versions = {}
+    for p in pkgs:
+        versions.setdefault(p["name"], []).append(vstr(p))
+    names = sorted(versions)
+    # audit-as-crates-io for some path packages (unpublished entries)
+    for p in pkgs:
+        if p["source"] == "path" and not p["workspace"] and rng.random() < 0.5:
+            same = [q for q in pkgs if q["name"] == p["name"]]
+            key = p["name"] if len(same) == 1 else f"{p['name']}:{vstr(p)}"
+            if len(same) == 1 or all(f"{q['name']}:{vstr(q)}" in store["policy"] or q is p for q in same):
+                ent = store["policy"].setdefault(key, {})
+                ent["audit-as-crates-io"] = True
+    peers_struct = {}
+    peer_text_extra = {}
+    for k, (peer, url) in enumerate(PEERS[:rng.choice([1, 1, 2])]):
+        urls = [url] + ([url.replace("audits", "more")] if rng.random() < 0.3 else [])
+        ptable = {}
+        order = ["peer-x", "peer-y"][:rng.choice([0, 1, 2, 2])]
+        for i, nm in enumerate(order):
+            later = order[i + 1:] + BUILTINS
+            ptable[nm] = {"description": f"desc {nm}", "implies": rng.sample(later, rng.choice([0, 1, 1, 2]))}
+        cmap = {}
+        for nm in ptable:
+            if rng.random() < 0.7:
+                cmap[nm] = crit_list(rng, crits, allow_empty=True)
+        if rng.random() < 0.25:
+            cmap["safe-to-deploy"] = rng.choice([[], ["safe-to-run"], crit_list(rng, crits)])
+        if rng.random() < 0.15:
+            cmap["safe-to-run"] = rng.choice([[], crit_list(rng, crits)])
+        imp = {"url": urls}
+        if cmap:
+            imp["criteria-map"] = cmap
+        if rng.random() < 0.4:
+            imp["exclude"] = rng.sample(names, min(len(names), rng.choice([1, 1, 2])))
+        store["imports"][peer] = imp
+        pcrits = BUILTINS + sorted(ptable)
+        lockf = {"criteria": {}, "audits": {}, "wildcard_audits": {}}
+        for u in urls:
+            pf = {"criteria": copy.deepcopy(ptable), "audits": {}, "wildcard_audits": {}, "trusted": {}}
+            for n in names:
+                if rng.random() < 0.7:
+                    l = gen_audits_for(rng, n, versions.get(n, []), pcrits, notes, True, 0.15)
+                    for a in l:
+                        pf["audits"].setdefault(n, []).append(a)
+                        if a.get("importable") is not False and n not in imp.get("exclude", []) and rng.random() < 0.4:
+                            la = dict(a)
+                            la["criteria"] = localise(store, ptable, cmap, a["criteria"])
+                            lockf["audits"].setdefault(n, []).append(la)
+                if rng.random() < 0.35:
+                    for w in gen_wildcards(rng, pcrits, notes):
+                        pf["wildcard_audits"].setdefault(n, []).append(w)
+                        if rng.random() < 0.4 and n not in imp.get("exclude", []):
+                            lw = dict(w)
+                            lw["criteria"] = localise(store, ptable, cmap, w["criteria"])
+                            lockf["wildcard_audits"].setdefault(n, []).append(lw)
+                if rng.random() < 0.1:
+                    pf["trusted"][n] = gen_wildcards(rng, pcrits, notes, trusted=True)
+            peers_struct[u] = pf
+        if rng.random() < 0.7:
+            store["lock"]["audits"][peer] = lockf
+    users = [[1, "user1", "User 1"], [2, "user2", "User 2"], [3, "user3", "User 3"]]
+    reg = {}
+    for n in names:
+        vs = set(rng.sample(VERSIONS, rng.choice([1, 2, 3])))
+        for p in pkgs:
+            if p["name"] == n:
+                if p["source"] == "registry":
+                    vs.add(p["version"])
+                elif rng.random() < 0.4:
+                    vs.add(p["version"])
+        reg[n] = [{"version": v, "by": rng.choice([1, 2, 3, 3, None]), "when": rng.choice(DATES[:6])} for v in sorted(vs)]
+    case = {"id": cid, "kind": "import", "graph": {"packages": pkgs}, "store_struct": store,
+            "peers_struct": peers_struct, "registry": {"users": users, "packages": reg, "meta": {}},
+            "allow_criteria_changes": True}
+    return finalize(case)
